@@ -41,7 +41,9 @@ RULE = (
     "one evaluation = one input string for which transpile() returned text that compiles, walked statement by "
     "statement against the run-time whitelist/vocabulary and the taint rule. Workloads: payloads of length <= 3 "
     "(quick: <= 2 inside wrappers) over the 16-symbol adversarial alphabet at 22 program-text positions x 4 "
-    "wrappers, and over a second 16-symbol alphabet (. , = space - * # @ non-ASCII letters) at the 11 name positions; all raw strings of length <= 4 (thorough <= 5) over that alphabet; random strings to length 60 over "
+    "wrappers, and over a second 16-symbol alphabet (. , = space - * # @ non-ASCII letters) at the 11 name positions; break-out payloads at every position (breaker prefix or one token of a fuzzing dictionary - the generated code's own "
+    "identifier prefixes and vocabulary, every Python spelling of a quote / backslash / newline escape - then a statement-"
+    "completing tail, raw or quoted as a string token); all raw strings of length <= 4 (thorough <= 5) over that alphabet; random strings to length 60 over "
     "the code page and over arbitrary Unicode. Structured and raw enumerations are disjoint by construction "
     "(counted; non-trivial = non-empty payload); random strings are counted by distinct text."
 )
@@ -661,18 +663,33 @@ def _run_inject(unit, m, res):
     breakers = [DQ, SQ, BACKSLASH, NL, BQ, CR]
     prefixes = [""] + breakers + ["".join(t) for t in itertools.product(breakers, repeat=2)] + \
                [BACKSLASH * 2 + DQ, DQ * 3, SQ * 3, BACKSLASH + DQ + BACKSLASH]
+    # a fuzzing dictionary of multi-character tokens: the generated code's own identifier prefixes (text
+    # that already looks sanitised) and vocabulary, and every way Python spells a breaker inside a literal
+    escapes = ["x22", "x27", "x5c", "x0a", "x0d", "42", "047", "134", "12", "u0022", "U00000022",
+               "N{QUOTATION MARK}", "N{APOSTROPHE}", "N{REVERSE SOLIDUS}", "x2", "u002", "N{"]
+    words = sorted(m.prefixes) + [w for w in ("stack", "ctx", "pop", "lambda", "VAR", "LOOP") if w not in m.prefixes]
+    tokens = [BACKSLASH + e for e in escapes] + [BACKSLASH * 2 + e for e in escapes[:6]] + words + \
+             [w.lower() for w in sorted(m.prefixes)]
     pos = unit["position"]
     c = res["counters"]
-    for pre in prefixes:
+    forms = [lambda pre, tail: pre + tail,
+             # the tail as a string / character token inside whatever the position is (names are joined
+             # from the values of all tokens of their branch)
+             lambda pre, tail: pre + BQ + tail + BQ,
+             lambda pre, tail: pre + BACKSLASH + tail[0] + BQ + tail[1:] + BQ]
+    for pre in prefixes + tokens:
         for tail in tails:
-            payload = pre + tail
-            for wrapper in ("top", "for-if"):
-                if wrapper not in P.C18_WRAPPERS:
-                    continue
-                prog = P.c18_program(pos, wrapper, payload)
-                run_program(prog, m, res, rep, "inject:" + pos)
-                c["inject_cases"] = c.get("inject_cases", 0) + 1
-    res["distinct"] += len(prefixes) * len(tails)
+            for fi, form in enumerate(forms):
+                if fi and pre in prefixes and pre:
+                    continue  # the quoted forms only with the empty prefix and the dictionary tokens
+                payload = form(pre, tail)
+                for wrapper in ("top", "for-if"):
+                    if wrapper not in P.C18_WRAPPERS:
+                        continue
+                    prog = P.c18_program(pos, wrapper, payload)
+                    run_program(prog, m, res, rep, "inject:" + pos)
+                    c["inject_cases"] = c.get("inject_cases", 0) + 1
+    res["distinct"] += (len(prefixes) + 3 * len(tokens)) * len(tails)
     res["samples"].append({"inject_program": P.c18_program(pos, "top", BACKSLASH + DQ + tails[0])})
 
 
